@@ -14,7 +14,7 @@ ID = "C16"
 RULE = ("Small generated cases for every subcommand that writes a VCF, BAM or TSV, biased toward ambiguity (conflicting "
         "equal-weight reads, read-free pedigree variants, reads or read clouds spanning several phase sets with equal scores, "
         "polyploid clusters of identical reads): phase (single samples, trios and quartets with --ped, with and without --use-ped-samples and an unrelated "
-        "extra individual in the same files, all list outputs), genotype (with and without --ped), polyphase (--threads 1/2/4, one or two samples, --use-prephasing with one pre-phased and one unphased sample), haplotag (--output-threads 1/4, BX "
+        "extra individual in the same files, all list outputs), genotype (with and without --ped, --no-priors, --gt-qual-threshold, --use-ped-samples), polyphase (--threads 1/2/4, one or two samples, --use-prephasing with one pre-phased and one unphased sample), haplotag (--output-threads 1/4, BX "
         "clouds, --regions over several contigs), haplotagphase, stats, compare, split, unphase and find_snv_candidates. Each case is executed 3-4 times as a real subprocess "
         "with PYTHONHASHSEED in {0, 1, 2, 12345} and different thread settings; all output files (without the ##commandline "
         "/ @PG CL lines) must be identical to those of the first execution. Non-trivial = the harness built a tie into the "
@@ -197,6 +197,8 @@ class GenotypePart(Base):
                            clip_share=0, eqx_share=0, kinds=("snv", "snv", "ins"))
         c["ped"] = ped
         c["noise"] = draw(st.integers(0, 10 ** 6))
+        c["gopts"] = {"nopriors": draw(st.booleans()), "threshold": draw(st.sampled_from([None, None, 0, 3, 20])),
+                      "use_ped_samples": ped and draw(st.booleans())}
         return c
 
     def prepare(self, case, d):
@@ -209,6 +211,13 @@ class GenotypePart(Base):
         args = ["genotype", "-o", "{out}/out.vcf", "--reference", ref]
         if case["ped"]:
             args += ["--ped", G.write_ped([["father", "mother", "child"]], os.path.join(d, "fam.ped"))]
+        o = case.get("gopts", {})
+        if o.get("nopriors"):
+            args.append("--no-priors")
+        if o.get("threshold") is not None:
+            args += ["--gt-qual-threshold", str(o["threshold"])]
+        if o.get("use_ped_samples"):
+            args.append("--use-ped-samples")
         return args + [vcf, bam], ["out.vcf"]
 
 
